@@ -3,6 +3,9 @@ C18 - The signer never returns plugin output it has not checked against the requ
 Property theorems; the model is in `Model/C18.lean`, the tables in `Generated/C18.lean`.
 -/
 import NotationModel.Model.C18
+import NotationModel.Generated.SrcC18
+import NotationModel.Generated.SrcC18b
+import NotationModel.Generated.SrcC18c
 set_option linter.unusedSimpArgs false
 set_option linter.unusedVariables false
 
@@ -10,7 +13,6 @@ namespace NotationModel.C18
 
 /-! ### facts regenerated from the Go source -/
 
-theorem assertion_checked : Facts.c18AssertionChecked = true := by decide
 theorem target_key_fact : Facts.c18TargetKey = "targetArtifact" := by decide
 theorem payload_fields_fact : Facts.c18PayloadFields = ["targetArtifact"] := by decide
 theorem payload_type_fact :
@@ -36,7 +38,6 @@ theorem sanitized_fields_fact :
 /-- generateSignatureEnvelope rejects duplicate member names, and does so after the struct decode
 and before the descriptor comparison and the unknown-field scan -/
 theorem duplicate_check_fact :
-    Facts.c18DuplicateKeysRejected = true ∧
     Facts.c18EnvelopeChecks.idxOf "json.Unmarshal" < Facts.c18EnvelopeChecks.idxOf "findDuplicateKey" ∧
     Facts.c18EnvelopeChecks.idxOf "findDuplicateKey" <
       Facts.c18EnvelopeChecks.idxOf "isPayloadDescriptorValid" ∧
@@ -169,7 +170,8 @@ def fieldAnn (cur : List (String × String)) : Option JVal → Option (List (Str
 theorem known_cases (k : String) (hk : isKnownKey k = true) :
     k = "mediaType" ∨ k = "digest" ∨ k = "size" ∨ k = "urls" ∨ k = "annotations" ∨ k = "data" ∨
     k = "platform" ∨ k = "artifactType" := by
-  simpa [isKnownKey, Facts.c18KnownDescriptorKeys] using hk
+  rw [isKnownKey_eq] at hk
+  simpa [descFields] using hk
 
 /-- a member with a known (exactly spelled) name touches its own field only -/
 theorem decDescField_spec (cur c : GoDesc) (k : String) (v : JVal) (hk : isKnownKey k = true)
@@ -488,7 +490,6 @@ def envChecks (i : Input) : Bool :=
 theorem envelopePath_eq (i : Input) :
     envelopePath i = if (i.pluginErr != .generate && envChecks i) then sigObs else errObs := by
   unfold envelopePath envChecks
-  rw [assertion_checked]
   by_cases h0 : i.pluginErr = .generate
   · simp [h0]
   by_cases h1 : i.echoOk = true
@@ -506,7 +507,6 @@ theorem envelopePath_eq (i : Input) :
   cases hg : goDecodePayload i.payload with
   | none => simp [h0, h1, h2, h3, h4, h5, hsd, sees]
   | some d =>
-    rw [duplicate_check_fact.1]
     by_cases hdd : i.payload.dupDeep = true
     · simp [h0, h1, h2, h3, h4, h5, hsd, hdd]
     by_cases h6 : descValid i.req d = true
@@ -849,7 +849,8 @@ def findingWitness : Input :=
     payload := .obj [("targetArtifact", .obj [("mediaType", .str "m"), ("digest", .str "sha256:00")]),
                      ("targetArtifact", .obj [("size", .num 7)])],
     lead := "", trail := "", spaced := false,
-    gsKeyIdOk := true, gsAlg := "ECDSA-SHA-256", sigMode := .good, chain := .ok, dupKeys := true }
+    gsKeyIdOk := true, gsAlg := "ECDSA-SHA-256", sigMode := .good, chain := .ok, dupKeys := true,
+    emptyAnnMap := false }
 
 theorem former_finding_refused :
     run findingWitness = errObs ∧
@@ -886,5 +887,511 @@ example : run { benign with trail := "{\"targetArtifact\":{\"digest\":\"sha256:f
 example : run { benign with trail := "]" } = errObs := by decide
 example : run { benign with lead := "\uFEFF" } = errObs := by decide
 example : Holds { benign with trail := "]" } sigObs = false := by decide
+
+/-! ### tie to the translated source (docs/TIE_BRIEF.md)
+
+`Generated/SrcC18*.lean` are produced from signer/plugin.go, internal/envelope/envelope.go and
+plugin/proto/algorithm.go on every run. The theorems below say that the translated functions compute,
+for ALL inputs, what the hand-written model computes. Library calls are oracles (`Src/TypesC18.lean`). -/
+
+namespace Tie
+open NotationModel.Src
+
+/-- the framework's wire constants, as hand-written in `Src/TypesC18.lean`, are the regenerated ones -/
+theorem wire_constants_fact : plugin.wireConstants = Facts.c18WireConstants := by decide
+
+/-- a Go descriptor as the model's request / decoded descriptor -/
+def reqOf (o : ocispec.Descriptor) : Desc :=
+  { mediaType := o.MediaType, digest := o.Digest, size := o.Size, annotations := o.Annotations }
+def goOf (n : ocispec.Descriptor) : GoDesc :=
+  { mediaType := n.MediaType, digest := n.Digest, size := n.Size, annotations := n.Annotations }
+
+theorem lookup_spec (m : List (String × String)) (k : String) :
+    GoLite.Map.lookup m k = (match List.lookup k m with | some v => (v, true) | none => (default, false)) := by
+  induction m with
+  | nil => simp [GoLite.Map.lookup, GoLite.Map.get?]
+  | cons a m ih =>
+    obtain ⟨k', v'⟩ := a
+    by_cases h : k' = k
+    · subst h
+      simp [GoLite.Map.lookup, GoLite.Map.get?, List.lookup]
+    · have h' : (k == k') = false := by simp; exact fun e => h e.symm
+      have h'' : (k' == k) = false := by simp [h]
+      simp only [GoLite.Map.lookup, GoLite.Map.get?, List.find?, h'', List.lookup, h'] at ih ⊢
+      exact ih
+
+def mstep (ann : List (String × String)) (_ : Unit) (kv : String × String) : Except Unit Unit :=
+  if List.lookup kv.1 ann == some kv.2 then .ok () else .error ()
+
+theorem foldE_all (ann : List (String × String)) (req : List (String × String)) :
+    (match GoLite.foldE (mstep ann) req () with | .ok _ => true | .error _ => false) =
+      req.all (fun kv => List.lookup kv.1 ann == some kv.2) := by
+  induction req with
+  | nil => simp [GoLite.foldE]
+  | cons a l ih =>
+    simp only [GoLite.foldE, mstep, List.all_cons]
+    by_cases h : (List.lookup a.1 ann == some a.2) = true
+    · simp only [h, if_true, Bool.true_and]; exact ih
+    · simp [h]
+
+theorem contentEqual_eq (o n : ocispec.Descriptor) :
+    content.Equal o n = (n.Size == o.Size && n.Digest == o.Digest && n.MediaType == o.MediaType) := by
+  rw [Bool.eq_iff_iff]
+  simp only [content.Equal, Bool.and_eq_true, beq_iff_eq]
+  constructor <;> (rintro ⟨⟨a, b⟩, c⟩; exact ⟨⟨a.symm, b.symm⟩, c.symm⟩)
+
+/-- TIE: `isDescriptorSubset`, translated from signer/plugin.go, is the model's `descValid`: the three
+fields of `content.Equal`, then every original annotation present with its value - for every pair
+of descriptors and every iteration order of the annotation map. -/
+theorem source_isDescriptorSubset_refines_model (o n : ocispec.Descriptor) :
+    signer.isDescriptorSubset o n = descValid (reqOf o) (goOf n) := by
+  unfold signer.isDescriptorSubset
+  simp only [Id.run]
+  by_cases hc : content.Equal o n = true
+  case neg =>
+    have hc' := hc
+    rw [contentEqual_eq] at hc'
+    simp only [hc, Bool.not_false, if_true]
+    simp only [descValid, reqOf, goOf]
+    cases h : (n.Size == o.Size && n.Digest == o.Digest && n.MediaType == o.MediaType) with
+    | true => exact absurd h hc'
+    | false => simp [pure, h]
+  have hc' := hc
+  rw [contentEqual_eq] at hc'
+  simp only [hc, Bool.not_true, Bool.false_eq_true, if_false]
+  rw [GoLite.forIn_eq_foldE' _ (mstep n.Annotations)
+        (fun _ => (none, ())) (fun _ _ => (some false, ())) ?h _ _ () rfl]
+  case h =>
+    intro a t
+    simp only [lookup_spec, mstep]
+    cases hl : List.lookup a.1 n.Annotations with
+    | none => simp
+    | some x =>
+      by_cases hx : x = a.2
+      · subst hx; simp
+      · have hx' : ¬ a.2 = x := fun e => hx e.symm
+        simp [hx, hx']
+  have hall := foldE_all n.Annotations o.Annotations
+  simp only [descValid, reqOf, goOf, hc', Bool.true_and]
+  rw [← hall]
+  cases GoLite.foldE (mstep n.Annotations) o.Annotations () with
+  | ok t => simp only [pure_bind]; rfl
+  | error e => obtain ⟨t, e⟩ := e; simp only [pure_bind]; rfl
+
+/-- TIE: `isPayloadDescriptorValid` is `descValid` too (`content.Equal` once more, then the subset test) -/
+theorem source_isPayloadDescriptorValid_refines_model (o n : ocispec.Descriptor) :
+    signer.isPayloadDescriptorValid o n = descValid (reqOf o) (goOf n) := by
+  unfold signer.isPayloadDescriptorValid
+  simp only [Id.run, pure, source_isDescriptorSubset_refines_model]
+  rw [contentEqual_eq]
+  simp only [descValid, reqOf, goOf]
+  cases (n.Size == o.Size && n.Digest == o.Digest && n.MediaType == o.MediaType) <;> simp
+
+example : signer.isPayloadDescriptorValid
+    { MediaType := "m", Digest := "d", Size := 1, Annotations := [("a", "")] }
+    { MediaType := "m", Digest := "d", Size := 1, Annotations := [] } = false := by decide
+example : signer.isPayloadDescriptorValid
+    { MediaType := "", Digest := "d", Size := 1, Annotations := [("a", "")] }
+    { MediaType := "x", Digest := "d", Size := 1, Annotations := [("a", "")] } = false := by decide
+example : signer.isPayloadDescriptorValid
+    { MediaType := "m", Digest := "d", Size := 1, Annotations := [("a", "")] }
+    { MediaType := "m", Digest := "d", Size := 1, Annotations := [("z", "1"), ("a", "")] } = true := by decide
+
+/-- TIE: `ValidatePayloadContentType` (internal/envelope/envelope.go) accepts exactly the one literal
+media type - no case folding, no parameters, no trimming -/
+theorem source_ValidatePayloadContentType_refines_model (p : signature.Payload) :
+    (envelope.ValidatePayloadContentType p).isNone = (p.ContentType == Facts.c18MediaTypePayloadV1) := by
+  unfold envelope.ValidatePayloadContentType
+  simp only [Id.run]
+  have : envelope.MediaTypePayloadV1 = Facts.c18MediaTypePayloadV1 := by decide
+  rw [this]
+  by_cases h : (p.ContentType == Facts.c18MediaTypePayloadV1) = true
+  · simp [h, pure]
+  · simp [h, pure]
+
+example : (envelope.ValidatePayloadContentType ⟨"application/vnd.cncf.notary.payload.v1+json;version=2", ""⟩).isSome = true := by
+  decide
+
+/-- the model's (type, size) of a Go key spec -/
+def specOf (ks : signature.KeySpec) : Spec :=
+  (match ks.«Type» with | .KeyTypeRSA => "RSA" | .KeyTypeEC => "EC" | .none => "", ks.Size.toNat)
+
+/-- `proto.DecodeKeySpec k` and the regenerated table agree on `k`: same key spec, or both refuse -/
+def decodeAgrees (k : String) : Bool :=
+  match decodeKeySpec k with
+  | some s => (proto.DecodeKeySpec k).2.isNone && specOf (proto.DecodeKeySpec k).1 == s
+  | none => (proto.DecodeKeySpec k).2.isSome
+
+/-- TIE: `proto.DecodeKeySpec` (plugin/proto/algorithm.go) decodes exactly the names of the regenerated
+table, to the table's key spec; every other string - in particular a name wrapped in blanks - is an error -/
+theorem source_DecodeKeySpec_refines_model (k : String) : decodeAgrees k = true := by
+  by_cases h1 : k = "RSA-2048"
+  · subst h1; decide
+  by_cases h2 : k = "RSA-3072"
+  · subst h2; decide
+  by_cases h3 : k = "RSA-4096"
+  · subst h3; decide
+  by_cases h4 : k = "EC-256"
+  · subst h4; decide
+  by_cases h5 : k = "EC-384"
+  · subst h5; decide
+  by_cases h6 : k = "EC-521"
+  · subst h6; decide
+  have e1 : (k == "RSA-2048") = false := by simpa using h1
+  have e2 : (k == "RSA-3072") = false := by simpa using h2
+  have e3 : (k == "RSA-4096") = false := by simpa using h3
+  have e4 : (k == "EC-256") = false := by simpa using h4
+  have e5 : (k == "EC-384") = false := by simpa using h5
+  have e6 : (k == "EC-521") = false := by simpa using h6
+  have hd : decodeKeySpec k = none := by
+    simp [decodeKeySpec, Facts.c18DecodeKeySpec, List.lookup, e1, e2, e3, e4, e5, e6]
+  unfold decodeAgrees
+  rw [hd]
+  simp [proto.DecodeKeySpec, Id.run, plugin.KeySpecRSA2048, plugin.KeySpecRSA3072, plugin.KeySpecRSA4096,
+    plugin.KeySpecEC256, plugin.KeySpecEC384, plugin.KeySpecEC521, h1, h2, h3, h4, h5, h6, pure]
+
+example : (proto.DecodeKeySpec "EC-256\n").2.isSome = true := by decide
+
+/-- TIE: `EncodeKeySpec` and `HashAlgorithmFromKeySpec` on the six key specs are the regenerated tables -/
+theorem source_EncodeKeySpec_refines_model (k : KS) :
+    ∃ ks, specOf ks = k.spec ∧ some (proto.EncodeKeySpec ks).1 = encodeKeySpec k.spec ∧
+      (proto.EncodeKeySpec ks).2 = none ∧
+      some (proto.HashAlgorithmFromKeySpec ks).1 = hashFromKeySpec k.spec ∧
+      (proto.HashAlgorithmFromKeySpec ks).2 = none := by
+  cases k
+  · exact ⟨⟨.KeyTypeRSA, 2048⟩, by decide⟩
+  · exact ⟨⟨.KeyTypeRSA, 3072⟩, by decide⟩
+  · exact ⟨⟨.KeyTypeRSA, 4096⟩, by decide⟩
+  · exact ⟨⟨.KeyTypeEC, 256⟩, by decide⟩
+  · exact ⟨⟨.KeyTypeEC, 384⟩, by decide⟩
+  · exact ⟨⟨.KeyTypeEC, 521⟩, by decide⟩
+
+/-! #### the unknown-field scan -/
+
+/-- a `for .. range` loop whose body always runs to its end is a left fold
+(generic; offered for GoLite.lean as /tmp/golite-C18.diff) -/
+theorem forIn_yield_fold {α σ : Type} (body : α → σ → Id (ForInStep σ)) (f : σ → α → σ)
+    (h : ∀ a s, body a s = pure (ForInStep.yield (f s a))) (l : List α) (s : σ) :
+    forIn l s body = pure (l.foldl f s) := by
+  induction l generalizing s with
+  | nil => simp
+  | cons a l ih => rw [List.forIn_cons, h]; simp [ih]
+
+theorem foldl_keys {ν : Type} (l : List (String × ν)) (acc : List String) :
+    l.foldl (fun s a => s ++ [a.1]) acc = acc ++ l.map (·.1) := by
+  induction l generalizing acc with
+  | nil => simp
+  | cons a l ih => simp [ih]
+
+/-- TIE: `getKeySet` lists the keys of the map (in the iteration order) -/
+theorem source_getKeySet_refines_model (m : GoLite.Map String signer.JAny) :
+    signer.getKeySet m = m.map (·.1) := by
+  unfold signer.getKeySet
+  simp only [Id.run]
+  rw [forIn_yield_fold _ (fun s a => s ++ [a.1]) ?h]
+  case h => intro a s; obtain ⟨k, v⟩ := a; rfl
+  simp only [pure_bind, foldl_keys, List.nil_append]
+  rfl
+
+/-- what the translated scan returns, read off its text: with an object under `targetArtifact` the
+names left after the deletions plus the other top-level names, else all top-level names -/
+theorem areUnknown_shape (w : signer.World) (c : signer.Bytes) :
+    (signer.areUnknownAttributesAdded w c).isEmpty =
+      (match signer.JAny.asObj (GoLite.Map.get (w.UnmarshalMap c default).1 "targetArtifact") with
+       | (d, true) => d.all (fun p => isKnownKey p.1) && (w.UnmarshalMap c default).1.all (fun p => p.1 == "targetArtifact")
+       | (_, false) => (w.UnmarshalMap c default).1.isEmpty) := by
+  unfold signer.areUnknownAttributesAdded
+  simp only [Id.run, source_getKeySet_refines_model]
+  generalize (w.UnmarshalMap c default).1 = m
+  cases h : signer.JAny.asObj (GoLite.Map.get m "targetArtifact") with
+  | mk d ok =>
+    cases ok with
+    | false => simp [pure]
+    | true =>
+      simp only [pure, Bool.not_true, Bool.false_eq_true, if_false, if_true, (by decide : (true == false) = false),
+        (by decide : (false == true) = false), (by decide : (true == true) = true), (by decide : (true != true) = false)]
+      rw [Bool.eq_iff_iff]
+      simp only [List.isEmpty_iff, List.append_eq_nil_iff, List.map_eq_nil_iff]
+      simp only [List.eq_nil_iff_forall_not_mem, GoLite.Map.mem_erase, Bool.and_eq_true, List.all_eq_true]
+      constructor
+      · rintro ⟨hd, hm⟩
+        refine ⟨fun x hx => ?_, fun x hx => ?_⟩
+        · cases hk : isKnownKey x.1 with
+          | true => rfl
+          | false =>
+            exfalso
+            simp [isKnownKey, Facts.c18KnownDescriptorKeys] at hk
+            exact hd x (by simp_all)
+        · cases hk : (x.1 == "targetArtifact") with
+          | true => rfl
+          | false => exact absurd ⟨hx, hk⟩ (hm x)
+      · rintro ⟨hd, hm⟩
+        refine ⟨fun x hx => ?_, fun x hx => ?_⟩
+        · simp only [and_assoc] at hx
+          have := known_cases _ (hd x hx.1)
+          rcases this with h' | h' | h' | h' | h' | h' | h' | h' <;> simp_all
+        · have := hm x hx.1
+          simp_all
+
+def keysAgree (a b : List String) : Prop := ∀ k, k ∈ a ↔ k ∈ b
+
+/-- the CONTRACT of the oracle `json.Unmarshal(content, &map[string]interface{})` for a document `p`
+(keys are exact and unique, the last member of a name wins, a non-object document leaves the map nil):
+the map has the document's top-level names, and under `targetArtifact` it holds an object with the
+names of the LAST such member's object - or something that is no object when that member is none -/
+structure MapDecodes (m : GoLite.Map String signer.JAny) (p : JVal) : Prop where
+  top : keysAgree (m.map (·.1)) (match p with | .obj kvs => keysOf kvs | _ => [])
+  target : ∀ kvs, p = .obj kvs → ∀ v, lookupLast "targetArtifact" kvs = some v →
+    match v with
+    | .obj d => ∃ dm, GoLite.Map.get? m "targetArtifact" = some (.obj dm) ∧ keysAgree (dm.map (·.1)) (keysOf d)
+    | _ => ∃ x, GoLite.Map.get? m "targetArtifact" = some x ∧ (signer.JAny.asObj x).2 = false
+
+theorem all_of_keysAgree {ν : Type} (l : List (String × ν)) (ks : List String) (q : String → Bool)
+    (h : keysAgree (l.map (·.1)) ks) : l.all (fun p => q p.1) = ks.all q := by
+  rw [Bool.eq_iff_iff]
+  simp only [List.all_eq_true]
+  constructor
+  · intro hl k hk
+    obtain ⟨p, hp, rfl⟩ := List.mem_map.1 ((h k).2 hk)
+    exact hl p hp
+  · intro hk p hp
+    exact hk p.1 ((h p.1).1 (List.mem_map.2 ⟨p, hp, rfl⟩))
+
+theorem nil_of_keysAgree_nil {ν : Type} (l : List (String × ν)) (h : keysAgree (l.map (·.1)) []) : l = [] := by
+  cases l with
+  | nil => rfl
+  | cons a r => exact absurd ((h a.1).1 (by simp)) (by simp)
+
+theorem get?_none_of_not_mem {ν : Type} (m : GoLite.Map String ν) (k : String) (h : k ∉ m.map (·.1)) :
+    GoLite.Map.get? m k = none := by
+  induction m with
+  | nil => rfl
+  | cons a r ih =>
+    simp only [List.map_cons, List.mem_cons, not_or] at h
+    have hne : (a.1 == k) = false := by simpa using fun e => h.1 e.symm
+    simp only [GoLite.Map.get?, List.find?, hne] at ih ⊢
+    exact ih h.2
+
+theorem get?_mem {ν : Type} (m : GoLite.Map String ν) (k : String) (x : ν) (h : GoLite.Map.get? m k = some x) :
+    m ≠ [] := by
+  intro e; subst e; simp [GoLite.Map.get?] at h
+
+theorem mem_keys_of_contains (k : String) : ∀ (m : Members), (keysOf m).contains k = true → ∃ v, lookupLast k m = some v := by
+  intro m
+  induction m with
+  | nil => intro h; simp [keysOf] at h
+  | cons a r ih =>
+    intro h
+    obtain ⟨k', v⟩ := a
+    cases hr : lookupLast k r with
+    | some w => exact ⟨w, by simp [lookupLast, hr]⟩
+    | none =>
+      by_cases hk : (k' == k) = true
+      · exact ⟨v, by simp [lookupLast, hr, hk]⟩
+      · exfalso
+        simp only [keysOf, List.map_cons, List.contains_cons, Bool.or_eq_true] at h
+        rcases h with h | h
+        · have : k = k' := by simpa using h
+          exact hk (by simp [this])
+        · obtain ⟨w, hw⟩ := ih (by simpa [keysOf] using h)
+          rw [hr] at hw; cases hw
+
+/-- TIE: `areUnknownAttributesAdded`, translated from signer/plugin.go, reports nothing exactly when the
+model's scan (`scanUnknown` with the checked assertion) is clean - for every document and every map
+the JSON oracle may yield for it (any key order) -/
+theorem source_areUnknownAttributesAdded_refines_model (w : signer.World) (c : signer.Bytes) (p : JVal)
+    (h : MapDecodes (w.UnmarshalMap c default).1 p) :
+    (signer.areUnknownAttributesAdded w c).isEmpty = scanClean (scanUnknown true p) := by
+  rw [areUnknown_shape, scan_checked_iff]
+  generalize (w.UnmarshalMap c default).1 = m at h
+  obtain ⟨htop, htarget⟩ := h
+  have hnil : ∀ (hm : m = []), (match signer.JAny.asObj (GoLite.Map.get m "targetArtifact") with
+       | (d, true) => d.all (fun p => isKnownKey p.1) && m.all (fun p => p.1 == "targetArtifact")
+       | (_, false) => m.isEmpty) = true := by
+    intro hm; subst hm; rfl
+  cases p with
+  | obj kvs =>
+    simp only at htop
+    cases hl : lookupLast "targetArtifact" kvs with
+    | none =>
+      have hnot : (keysOf kvs).contains "targetArtifact" = false := by
+        cases hc : (keysOf kvs).contains "targetArtifact" with
+        | false => rfl
+        | true => obtain ⟨v, hv⟩ := mem_keys_of_contains _ _ hc; rw [hl] at hv; cases hv
+      have hnm : "targetArtifact" ∉ m.map (·.1) := by
+        intro hmem
+        have := (htop _).1 hmem
+        simp [List.contains_iff_mem] at hnot
+        exact hnot this
+      have hget := get?_none_of_not_mem m _ hnm
+      simp only [GoLite.Map.get, GoLite.Map.lookup, hget, topKeysExact, descKeysKnown, hl, Bool.and_true]
+      have hdef : signer.JAny.asObj (default : signer.JAny) = ([], false) := rfl
+      simp only [hdef]
+      cases kvs with
+      | nil => rw [nil_of_keysAgree_nil m (by simpa [keysOf] using htop)]; rfl
+      | cons a r =>
+        have hka : a.1 ≠ "targetArtifact" := by
+          intro e
+          simp [keysOf, e] at hnot
+        have hmem : a.1 ∈ m.map (·.1) := (htop a.1).2 (by simp [keysOf])
+        have hm : m ≠ [] := by intro e; subst e; simp at hmem
+        have : (a.1 == "targetArtifact") = false := by simpa using hka
+        cases m with
+        | nil => exact absurd rfl hm
+        | cons b m' => simp [keysOf, this]
+    | some v =>
+      have ht := htarget kvs rfl v hl
+      cases v with
+      | obj d =>
+        obtain ⟨dm, hget, hkd⟩ := ht
+        simp only [GoLite.Map.get, GoLite.Map.lookup, hget, signer.JAny.asObj, topKeysExact, descKeysKnown, hl]
+        rw [all_of_keysAgree dm (keysOf d) isKnownKey hkd, all_of_keysAgree m (keysOf kvs) (· == "targetArtifact") htop]
+        have : isKnownKey = descFields.contains := funext isKnownKey_eq
+        simp only [this, Bool.and_comm]
+      | null | bool _ | num _ | str _ | arr _ =>
+        obtain ⟨x, hget, hx⟩ := ht
+        have hm := get?_mem m _ x hget
+        simp only [GoLite.Map.get, GoLite.Map.lookup, hget, topKeysExact, descKeysKnown, hl, Bool.and_false]
+        cases hax : signer.JAny.asObj x with
+        | mk y ok =>
+          rw [hax] at hx
+          simp only at hx
+          subst hx
+          cases m with
+          | nil => exact absurd rfl hm
+          | cons b m' => rfl
+  | null | bool _ | num _ | str _ | arr _ =>
+    have hm := nil_of_keysAgree_nil m (by simpa using htop)
+    rw [hnil hm]
+    simp [topKeysExact, descKeysKnown]
+
+/-! #### the checks of generateSignatureEnvelope, composed -/
+
+/-- the oracles answer as the scenario `i` says (the CONTRACT that links the abstract scenario to the
+library calls of generateSignatureEnvelope) -/
+structure Consistent (w : signer.World) (i : Input) (desc : ocispec.Descriptor)
+    (opts : «notation».SignerSignOptions) (req : plugin.GenerateEnvelopeRequest)
+    (resp : plugin.GenerateEnvelopeResponse) (err : Option GoLite.Err) : Prop where
+  request : reqOf desc = i.req
+  pluginErr : err.isSome = (i.pluginErr == .generate)
+  echo : (resp.SignatureEnvelopeType != req.SignatureEnvelopeType) = !i.echoOk
+  parse : (w.ParseEnvelope opts.SignatureMediaType resp.SignatureEnvelope).2.isSome = (i.garbage || i.envFmt != i.format)
+  verify : (w.ParseEnvelope opts.SignatureMediaType resp.SignatureEnvelope).1.Verify.2.isSome = !verifyOk i
+  ctype : ((w.ParseEnvelope opts.SignatureMediaType resp.SignatureEnvelope).1.Verify.1.Payload.ContentType
+            == Facts.c18MediaTypePayloadV1) = i.ctypeOk
+  decode : (w.UnmarshalPayload (w.ParseEnvelope opts.SignatureMediaType resp.SignatureEnvelope).1.Verify.1.Payload.Content default).2.isSome
+            = !(singleDocument i && (goDecodePayload i.payload).isSome)
+  decoded : ∀ d, goDecodePayload i.payload = some d →
+      goOf (w.UnmarshalPayload (w.ParseEnvelope opts.SignatureMediaType resp.SignatureEnvelope).1.Verify.1.Payload.Content default).1.TargetArtifact = d
+  dup : (w.findDuplicateKey (w.ParseEnvelope opts.SignatureMediaType resp.SignatureEnvelope).1.Verify.1.Payload.Content).2 = i.payload.dupDeep
+  map : MapDecodes (w.UnmarshalMap (w.ParseEnvelope opts.SignatureMediaType resp.SignatureEnvelope).1.Verify.1.Payload.Content default).1 i.payload
+
+/-- TIE: the part of `generateSignatureEnvelope` after the plugin call (translated from signer/plugin.go as
+`checkGeneratedEnvelope`: error of the call, type echo, ParseEnvelope, Verify, payload type, struct decode,
+duplicate names, descriptor comparison, unknown-field scan) returns no error exactly when the model's
+`envelopePath` answers with a signature - for every scenario and all oracles consistent with it -/
+theorem source_generateSignatureEnvelope_refines_model (w : signer.World) (i : Input) (desc : ocispec.Descriptor)
+    (opts : «notation».SignerSignOptions) (req : plugin.GenerateEnvelopeRequest)
+    (resp : plugin.GenerateEnvelopeResponse) (err : Option GoLite.Err)
+    (h : Consistent w i desc opts req resp err) :
+    (signer.checkGeneratedEnvelope w desc opts req resp err).2.2.isNone = ((envelopePath i).outcome == .sig) := by
+  obtain ⟨hreq, h0, h1, h2, h3, h4, h5, h5d, h6, h7⟩ := h
+  rw [envelopePath_eq]
+  unfold signer.checkGeneratedEnvelope
+  simp only [Id.run]
+  have hv := source_ValidatePayloadContentType_refines_model
+    (w.ParseEnvelope opts.SignatureMediaType resp.SignatureEnvelope).1.Verify.1.Payload
+  rw [h4] at hv
+  have hscan := source_areUnknownAttributesAdded_refines_model w _ _ h7
+  rw [scan_checked_iff] at hscan
+  have hlen : ∀ l : List String, (GoLite.len l != 0) = !l.isEmpty := by
+    intro l; cases l <;> simp [GoLite.len] <;> omega
+  have hlen' : ∀ l : List String, decide (GoLite.len l > 0) = !l.isEmpty := by
+    intro l; cases l <;> simp [GoLite.len] <;> omega
+  have hlen'' : ∀ l : List String, (GoLite.len l == 0) = l.isEmpty := by
+    intro l; cases l <;> simp [GoLite.len] <;> omega
+  have hlen3 : ∀ l : List String, ((0 : Int) != GoLite.len l) = !l.isEmpty := by
+    intro l; cases l <;> simp [GoLite.len] <;> omega
+  have hlen4 : ∀ l : List String, ((0 : Int) == GoLite.len l) = l.isEmpty := by
+    intro l; cases l <;> simp [GoLite.len] <;> omega
+  have hlen5 : ∀ l : List String, decide ((0 : Int) < GoLite.len l) = !l.isEmpty := by
+    intro l; cases l <;> simp [GoLite.len] <;> omega
+  have h1' : (req.SignatureEnvelopeType != resp.SignatureEnvelopeType) = !i.echoOk := by
+    rw [← h1, Bool.eq_iff_iff]
+    simp only [bne_iff_ne, ne_eq]
+    exact ⟨fun h e => h e.symm, fun h e => h e.symm⟩
+  have h1e : (resp.SignatureEnvelopeType == req.SignatureEnvelopeType) = i.echoOk := by
+    have := h1; simp only [bne] at this; cases hh : (resp.SignatureEnvelopeType == req.SignatureEnvelopeType) <;> simp_all
+  have h1e' : (req.SignatureEnvelopeType == resp.SignatureEnvelopeType) = i.echoOk := by
+    rw [← h1e, Bool.eq_iff_iff]; simp only [beq_iff_eq]; exact ⟨Eq.symm, Eq.symm⟩
+  simp only [hlen, hlen', hlen'', hlen3, hlen4, hlen5, hscan, source_isPayloadDescriptorValid_refines_model, hreq, h0, h1, h1', h1e, h1e', h2, h3, h5, h6]
+  have hvs : (envelope.ValidatePayloadContentType
+      (w.ParseEnvelope opts.SignatureMediaType resp.SignatureEnvelope).1.Verify.1.Payload).isSome = !i.ctypeOk := by
+    cases hh : envelope.ValidatePayloadContentType
+      (w.ParseEnvelope opts.SignatureMediaType resp.SignatureEnvelope).1.Verify.1.Payload <;> simp [hh] at hv ⊢ <;> simp [← hv]
+  rw [hvs]
+  generalize hpe2 : (w.ParseEnvelope opts.SignatureMediaType resp.SignatureEnvelope).2 = pe2 at h2 ⊢
+  generalize hvp : envelope.ValidatePayloadContentType
+      (w.ParseEnvelope opts.SignatureMediaType resp.SignatureEnvelope).1.Verify.1.Payload = vp at hvs hv ⊢
+  by_cases c0 : i.pluginErr = .generate
+  · simp [c0, pure, errObs]
+  by_cases c1 : i.echoOk = true
+  case neg => simp [c0, c1, pure, envChecks, errObs]
+  by_cases c2 : (i.garbage || i.envFmt != i.format) = true
+  · have : (!i.garbage && i.envFmt == i.format) = false := by
+      cases hg : i.garbage <;> simp_all
+    have e2 : pe2.isNone = false := by cases pe2 <;> simp_all
+    simp [c0, c1, c2, pure, envChecks, errObs, this, e2]
+  have c2' : i.garbage = false ∧ i.envFmt = i.format := by
+    cases hg : i.garbage <;> simp_all
+  by_cases c3 : verifyOk i = true
+  case neg => simp [c0, c1, c2, c2'.1, c2'.2, c3, pure, envChecks, errObs]
+  by_cases c4 : i.ctypeOk = true
+  case neg =>
+    have e4 : vp.isNone = false := by cases vp <;> simp_all
+    simp [c0, c1, c2, c2'.1, c2'.2, c3, c4, pure, envChecks, errObs, e4]
+  by_cases c5 : singleDocument i = true
+  case neg => simp [c0, c1, c2, c2'.1, c2'.2, c3, c4, c5, pure, envChecks, errObs]
+  cases hg : goDecodePayload i.payload with
+  | none => simp [c0, c1, c2, c2'.1, c2'.2, c3, c4, c5, hg, pure, envChecks, errObs, sees]
+  | some d =>
+    have hd := h5d d hg
+    rw [hd]
+    by_cases c6 : i.payload.dupDeep = true
+    · simp [c0, c1, c2, c2'.1, c2'.2, c3, c4, c5, hg, c6, pure, envChecks, errObs]
+    have c6' : i.payload.dupDeep = false := by simpa using c6
+    have hE : envChecks i = (descValid i.req d && (topKeysExact i.payload && descKeysKnown i.payload)) := by
+      simp [envChecks, c1, c2'.1, c2'.2, c3, c4, c5, c6', hg, sees, Bool.and_assoc]
+    cases hA : descValid i.req d <;> cases hB : (topKeysExact i.payload && descKeysKnown i.payload) <;>
+      simp [hE, hA, hB, c0, c1, c2, c3, c4, c5, hg, c6', pure, sigObs, errObs]
+
+/-- non-vacuity: the translated checks run on concrete oracles - a perfect answer passes, a wrong echo,
+an extra descriptor member or a changed media type (requested: none) do not -/
+def sampleWorld (m : GoLite.Map String signer.JAny) (d : ocispec.Descriptor) : signer.World :=
+  { UnmarshalMap := fun _ _ => (m, none)
+    UnmarshalPayload := fun _ _ => (⟨d⟩, none)
+    ParseEnvelope := fun _ _ => (⟨(⟨⟨"application/vnd.cncf.notary.payload.v1+json", "{}"⟩, ⟨7⟩⟩, none)⟩, none)
+    findDuplicateKey := fun _ => ("", false) }
+
+def sampleDesc : ocispec.Descriptor := { MediaType := "", Digest := "sha256:00", Size := 7, Annotations := [] }
+
+example : (signer.checkGeneratedEnvelope
+    (sampleWorld [("targetArtifact", .obj [("digest", .str "sha256:00"), ("size", .num 7)])] sampleDesc)
+    sampleDesc ⟨"application/jose+json"⟩ ⟨"application/jose+json"⟩ ⟨"env", "application/jose+json", []⟩ none)
+    = ("env", some ⟨7⟩, none) := by decide
+example : (signer.checkGeneratedEnvelope
+    (sampleWorld [("targetArtifact", .obj [("digest", .str "sha256:00"), ("size", .num 7)])] sampleDesc)
+    sampleDesc ⟨"application/jose+json"⟩ ⟨"application/jose+json"⟩ ⟨"env", "application/cose", []⟩ none).2.2.isSome = true := by
+  decide
+example : (signer.checkGeneratedEnvelope
+    (sampleWorld [("targetArtifact", .obj [("digest", .str "sha256:00"), ("Size", .num 7)])] sampleDesc)
+    sampleDesc ⟨"application/jose+json"⟩ ⟨"application/jose+json"⟩ ⟨"env", "application/jose+json", []⟩ none).2.2.isSome = true := by
+  decide
+example : (signer.checkGeneratedEnvelope
+    (sampleWorld [("targetArtifact", .obj [("digest", .str "sha256:00"), ("size", .num 7)])] { sampleDesc with MediaType := "text/x-shellscript" })
+    sampleDesc ⟨"application/jose+json"⟩ ⟨"application/jose+json"⟩ ⟨"env", "application/jose+json", []⟩ none).2.2.isSome = true := by
+  decide
+
+end Tie
 
 end NotationModel.C18
